@@ -5,6 +5,7 @@ mod ops_affine;
 mod ops_boolops;
 mod ops_c17;
 mod ops_centroid;
+mod ops_closest;
 mod ops_determinism;
 mod ops_distance;
 mod ops_hull;
@@ -15,6 +16,7 @@ mod ops_poly;
 mod ops_relate;
 mod ops_segseg;
 mod ops_simplify;
+mod ops_sphere;
 mod ops_tiling;
 mod ops_traversal;
 mod ops_valid;
@@ -68,6 +70,7 @@ fn main() {
             match args[2].as_str() {
                 "c18" => ops_c18::record(&mut w, seed, n),
                 "c17" => ops_c17::record(&pool, &mut w, seed, n),
+                "c16" => ops_sphere::record(&mut w, seed, n),
                 "c04" => ops_boolops::record(&pool, &mut w, seed, n),
                 "c10" => ops_tiling::record(&pool, &mut w, seed, n),
                 "c10rerun" => ops_tiling::rerun(&pool, &mut w),
@@ -85,6 +88,8 @@ fn main() {
 fn dispatch_case(cx: &mut Ctx, n: u64, case: &Value) {
     match case["op"].as_str().unwrap_or("") {
         "centroid" => ops_centroid::centroid_case(cx, n, case),
+        "closest" => ops_closest::closest_case(cx, n, case),
+        "interior" => ops_closest::interior_case(cx, n, case),
         "distance" => ops_distance::distance_case(cx, n, case),
         "segseg" => ops_segseg::segseg_case(cx, n, case),
         "kernel" => ops_kernel::kernel_case(cx, n, case),
@@ -101,6 +106,7 @@ fn dispatch_case(cx: &mut Ctx, n: u64, case: &Value) {
         "c18_chain" => ops_c18::chain_case(cx, n, case),
         "c18_step" => ops_c18::step_case(cx, n, case),
         "coordpos_pt" => ops_relate::coordpos_pt_case(cx, n, case),
+        "sphere" => ops_sphere::sphere_case(cx, n, case),
         op => { cx.count(&format!("unknown_op_{op}"), 1); }
     }
 }
